@@ -36,9 +36,13 @@ ASSUMPTIONS["C11"] = [
     "float64 interpolation trusted; matching tolerance 1e-12*scale + 64 eps*scale/sin(edge,plane)",
     "a face lying in the plane belongs to the slice whose normal opposes the face normal (source comment of slice_faces_plane; regularised solid semantics)",
     "when the plane contains mesh edges only the documented convention of triangle_cases is checked (on-edge faces with the third vertex on the positive side report the edge), coverage is not demanded",
-    "Path3D.is_closed is demanded only for closed input, no vertex on the plane and distinct crossing points > 1e-4 apart (path merge tolerance 1e-5)",
+    "Path3D.is_closed / path length are demanded only for distinct expected section points > 1e-4 apart (path merge tolerance 1e-5); closedness also needs closed input and no vertex on the plane",
+    "capping works at the resolution tol.merge: exact volume / watertightness of capped halves is demanded only when distinct expected section points are > 1e-6 apart and every crossing point is reproducible to 1e-9 (8 eps scale / sin(edge, plane)); a vertex taken as on-plane within tolerance widens the area / volume tolerance by the band it may move (and points within tol.merge of the surface count as on it)",
+    "near-plane offsets avoid the half-grid value 5e-9 where the 1e-8 rounding grid of grouping.unique_rows may 'go either way' (documented there)",
+    "transform_points' documented identity shortcut (|M - I| < 1e-8) is allowed for in the 2D round trip of section_multiplane",
     "template solids under jitter <= 0.05 / lattice >= 100 rounding are embedded (not self-intersecting); lattice 10 solids are used for capping only when convex by an exact test",
     "slice_plane(face_index=...) is read as 'the positive part of the selected faces', like local_faces of mesh_plane",
+    "winding consistency (is_volume) of a capped convex half is demanded only if the half has no zero-area face (a cap over collinear points)",
 ]
 
 _f = lambda lo, hi: st.floats(lo, hi, allow_nan=False, allow_infinity=False)  # noqa
@@ -292,26 +296,6 @@ def endpoints_separated(M, dots, signs, min_dist=1e-4):
     return True
 
 
-def section_pinched(M, dots, signs):
-    """the section graph (nodes: cut mesh edges and on-plane vertices; one arc per straddling face and per on-edge
-    face of the documented convention) has a node where more than two arcs meet: loops touching at a vertex"""
-    exp, conv = expected_segments(M, dots, signs)
-    F = M["F"]
-    deg = Counter()
-    for f in exp:
-        idx = F[f]
-        for k in range(3):
-            a, b = int(idx[k]), int(idx[(k + 1) % 3])
-            if signs[a] == 0:
-                deg[("v", a)] += 1
-            if int(signs[a]) * int(signs[b]) < 0:
-                deg[("e", min(a, b), max(a, b))] += 1
-    for f in conv:
-        for a in F[f][signs[F[f]] == 0].tolist():
-            deg[("v", int(a))] += 1
-    return any(v > 2 for v in deg.values())
-
-
 def endpoints_resolved(M, dots, signs, nlen=1.0):
     """capping works at the documented resolution tol.merge = 1e-8 (vertices closer than that are one vertex; the two
     faces sharing a cut edge each compute its crossing point and rely on that merge): exact volumes / watertightness
@@ -533,7 +517,8 @@ def b_slice(case, ctx):
         src = F if subset is None else F[np.array(subset, dtype=np.int64).reshape(-1)]
         T = V[src]
         both = bool((signs > 0).any() and (signs < 0).any())
-        cl = [M["label"], "plane:" + pk, "nplanes:%d" % len(planes)] + code_classes(sf)
+        ctx.note(nontrivial=both, cls=[M["label"], "plane:" + pk, "nplanes:%d" % len(planes)] + code_classes(sf))
+        cl = []
         base = f"C11.slice|{pk}" + ("|face_index" if subset is not None else "")
 
         def run(pl, form):
@@ -551,6 +536,7 @@ def b_slice(case, ctx):
             return c
 
         form = case.get("form", "vec")
+        unresolved = False
         results = {}
         variants = [("+", planes)]
         variants.append(("-", planes[:-1] + [(planes[-1][0], -planes[-1][1])]))
@@ -566,17 +552,23 @@ def b_slice(case, ctx):
                 cl.append("ambiguous")
             if c.snap_area > 1e-11 * scale * scale:
                 cl.append("slice:snapped")
+            ctx.note(cls=sorted(set(cl)))
+            cl = []
             sg = "C11.slice|snapped_vertex" if c.snapped_cut else base + "|side" + name
-            check_slice_output(sg, M, pl, out, src, scale, c, atol_snap)
+            if c.gray:
+                cl.append("slice:unresolved_skipped")  # a vertex in (tol.merge, 100 tol.merge] of a plane
+                unresolved = True
+            else:
+                check_slice_output(sg, M, pl, out, src, scale, c, atol_snap)
             results[name] = (ref.area_of(out.vertices, out.faces), c, atol_snap)
         # the two opposite slices add up to the (remaining) surface
         A0 = ref.area_of(V, src) if len(planes) == 1 else results["head"][0]
         Ap, Am = results["+"][0], results["-"][0]
-        if not results["+"][1].ambiguous and not results["-"][1].ambiguous:
+        if not results["+"][1].ambiguous and not results["-"][1].ambiguous and not unresolved:
             tol = 1e-9 * max(ref.area_of(V, src), 1e-300) + results["+"][2] + results["-"][2]
             sg = "C11.slice|snapped_vertex" if (results["+"][1].snapped_cut or results["-"][1].snapped_cut) else base
             check(abs(Ap + Am - A0) <= tol, sg + "|area_sum", f"area(+) {Ap!r} + area(-) {Am!r} = {Ap + Am!r} vs {A0!r}")
-        ctx.note(nontrivial=both, cls=cl)
+        ctx.note(cls=sorted(set(cl)))
         check(np.array_equal(mesh.vertices, V) and np.array_equal(mesh.faces, F), base + "|input_modified", "mesh changed by slice_plane")
 
 
@@ -632,7 +624,9 @@ def b_cap(case, ctx):
         mesh = trimesh.Trimesh(V.copy(), F.copy(), process=False)
         shape = "convex" if M["convex"] else ("multibody" if M["ncomp"] > 1 else "nonconvex")
         base = f"C11.cap|{engine}|{shape}|{pk}"
-        cl = [M["label"], "cap:" + engine, "cap:" + shape, "capplane:" + pk, "nplanes:%d" % len(planes)] + code_classes(sf)
+        ctx.note(nontrivial=bool((signs > 0).any() and (signs < 0).any()),
+                 cls=[M["label"], "cap:" + engine, "cap:" + shape, "capplane:" + pk, "nplanes:%d" % len(planes)] + code_classes(sf))
+        cl = []
         vols = {}
         any_cut = False
         variants = [("+", planes), ("-", planes[:-1] + [(planes[-1][0], -planes[-1][1])])]
@@ -649,9 +643,11 @@ def b_cap(case, ctx):
             ve, c = exact_side_volume(M, pl)
             cause = None
             pin = ref.cap_boundary_pinched(ref.Clip([t for t in V[F]]).cut(*pl[0]).polys, pl[0][0], pl[0][1], scale)
+            cH = None
             if len(pl) > 1 and Mhead is not None:
-                pin = pin or ref.cap_boundary_pinched(ref.Clip([t for t in Mhead["V"][Mhead["F"]]]).cut(*pl[-1]).polys, pl[-1][0], pl[-1][1], scale)
-            if c.snapped_cut:
+                cH = ref.Clip([t for t in Mhead["V"][Mhead["F"]]]).cut(*pl[-1])
+                pin = pin or ref.cap_boundary_pinched(cH.polys, pl[-1][0], pl[-1][1], scale)
+            if c.snapped_cut or (cH is not None and cH.snapped_cut):
                 cause = "snapped_vertex"
             elif pin:
                 cause = "pinched_section"
@@ -661,9 +657,12 @@ def b_cap(case, ctx):
                 causes.add(cause)
                 cl.append("cap:" + cause.split("|")[0])
             sig = (f"C11.cap|{cause}" if cause else base) + "|side" + name
+            ctx.note(cls=sorted(set(cl)))
+            cl = []
             res = endpoints_resolved(M, *oracle_signs(M, *pl[0])[:2], nlen=float(np.linalg.norm(pl[0][1])))
             if len(pl) > 1 and Mhead is not None:
                 res = res and endpoints_resolved(Mhead, *oracle_signs(Mhead, *pl[-1])[:2], nlen=float(np.linalg.norm(pl[-1][1])))
+            res = res and not c.gray and not (cH is not None and cH.gray)
             if not res:
                 cl.append("cap:unresolved_skipped")
             try:
@@ -718,7 +717,7 @@ def b_cap(case, ctx):
             check(abs(vols["+"][0] + vols["-"][0] - whole) <= tol, sg + "|volume_sum", f"vol(+) {vols['+'][0]!r} + vol(-) {vols['-'][0]!r} vs {whole!r}")
         else:
             cl.append("ambiguous")
-        ctx.note(nontrivial=any_cut, cls=cl)
+        ctx.note(cls=sorted(set(cl)))
 
 
 # --------------------------------------------------------------------------------------------- strategies
@@ -830,20 +829,20 @@ def cap_case(draw):
 
 @subcheck("C11", "section", shards={"quick": 6, "thorough": 16})
 def s_section(ctx):
-    ctx.given("C11.section", section_case(), n={"quick": 2400, "thorough": 60000})
+    ctx.given("C11.section", section_case(), n={"quick": 3000, "thorough": 60000})
 
 
 @subcheck("C11", "slice", shards={"quick": 5, "thorough": 16})
 def s_slice(ctx):
-    ctx.given("C11.slice", slice_case(), n={"quick": 1500, "thorough": 40000})
+    ctx.given("C11.slice", slice_case(), n={"quick": 2000, "thorough": 40000})
 
 
 @subcheck("C11", "cap", shards={"quick": 5, "thorough": 16})
 def s_cap(ctx):
-    ctx.given("C11.cap", cap_case(), n={"quick": 1200, "thorough": 30000})
+    ctx.given("C11.cap", cap_case(), n={"quick": 1800, "thorough": 30000})
 
 
 REQUIRED_CLASSES["C11"] = [f"code:{c}" for c in (0, 2, 4, 6, 8, 12, 14, 16, 20, 28)] + [
     "slice:inside", "slice:outside", "slice:quad", "slice:tri", "slice:tri_vertex_on_plane", "slice:coplanar_kept", "slice:coplanar_dropped",
-    "signs:exact", "closed_demanded", "cap:convex_half_checked",
-]
+    "signs:exact", "signs:tol", "closed_demanded", "cap:convex_half_checked", "subset:some", "multiplane:vertex", "nplanes:2",
+] + ["sp:" + a + b + c for a in "-0+" for b in "-0+" for c in "-0+"] + ["cap:" + e for e in ENGINES]
